@@ -4,6 +4,7 @@ import (
 	"bytes"
 	"encoding/json"
 	"fmt"
+	"math/big"
 	"os"
 	"regexp"
 	"strings"
@@ -175,6 +176,12 @@ func buildCorpus() {
 			BatchItem: []kmip.ResponseBatchItem{{Operation: kmip.OperationGetAttributes, ResultStatus: kmip.ResultStatusSuccess,
 				ResponsePayload: &payloads.GetAttributesResponsePayload{UniqueIdentifier: fmt.Sprintf("id-%d", i), Attribute: attrs}}}}
 		corpus = append(corpus, corpusEntry{name: fmt.Sprintf("repeated-attributes/%d", i), value: msg, target: func() any { return &kmip.ResponseMessage{} }})
+	}
+	// negative big integers, as generic values and inside a typed structure (an encoder must not touch its input)
+	for i, sh := range []uint{3, 70, 200} {
+		nb := new(big.Int).Lsh(big.NewInt(int64(-12345-i)), sh)
+		v := ttlv.Value{Tag: 0x420078, Value: ttlv.Struct{{Tag: 0x420069, Value: int32(i)}, {Tag: 0x42003E, Value: nb}, {Tag: 0x42003F, Value: new(big.Int).Neg(nb)}}}
+		corpus = append(corpus, corpusEntry{name: fmt.Sprintf("negative-bigint/%d", i), value: v, target: func() any { return &ttlv.Value{} }})
 	}
 	// text strings that need escaping in the XML / JSON / text forms (quotes, backslashes, control characters,
 	// non-ASCII, long): several different ones, so that concurrent encodes cannot pass for each other
